@@ -219,6 +219,7 @@ def analyse_wrapper(mod, cfg, fn, op, ty, var, names):
             if k in ('p', 'P'):
                 in_mem['arg:' + nm] = (_call2(op.mem_bits, ty, var) if getattr(op, 'mem_bits', None) else ty.bits)
         ev = lanes.Eval(mod, fn, args, in_mem)
+        ev.allow_shared_arms = True
         ev.run()
     except lanes.AssertsFalse as e:
         res.update(status='rejected', why=str(e))
